@@ -21,7 +21,7 @@ RULE = ("every spec of the universes with <=5 atoms (isolated atoms, attributes,
         "distinct = (spec, mapping, mode) executions")
 ASSUMPTIONS = ["only mappings whose induced total map on all mentioned identifiers is injective (as the property states)",
                "hash compared only for fully specified parities"]
-BUDGET = {"quick": 240, "thorough": 1500}
+BUDGET = {"quick": 600, "thorough": 1500}
 MG, SMG, CRG, SCRG = RG.MG, RG.SMG, RG.CRG, RG.SCRG
 
 
